@@ -9,6 +9,7 @@ package operationparser
 import (
 	"encoding/json"
 	"fmt"
+	"math"
 
 	"github.com/pkg/errors"
 
@@ -261,7 +262,17 @@ func (p *Parser) validateNonce(nonce string) error {
 
 func (p *Parser) getAnchorUntil(from, until int64) int64 {
 	if from != 0 && until == 0 {
-		return from + int64(p.MaxOperationTimeDelta)
+		// from + maximum operation time delta, without wrapping around
+		delta := p.MaxOperationTimeDelta
+		if delta > math.MaxInt64 {
+			delta = math.MaxInt64
+		}
+
+		if until = from + int64(delta); from > 0 && until < from {
+			until = math.MaxInt64
+		}
+
+		return until
 	}
 
 	return until
